@@ -72,3 +72,49 @@ def standard_world():
 
 def copy_world(w):
     return copy.deepcopy(w)
+
+
+def mixed_world(n_chr=4, groups=True, multimappers=True):
+    """n_chr chromosomes of different lengths; on each: a 3-isoform '+' gene at 1000, a '-' gene at 5000, an unannotated
+    locus at 8000; reads: FSM of every isoform, ISM (ambiguous), novel in catalog, novel exon, intergenic spliced novel gene,
+    mono-exonic, unmapped; read ids carry a group suffix; multi-mappers between consecutive chromosomes"""
+    from vlib import syn
+    w = {"chroms": {"chr%d" % (i + 1): 12000 - 700 * i for i in range(n_chr)}, "genes": [], "reads": [], "sites": []}
+    reads = []
+    cnt = [0]
+
+    def name(tag, grp):
+        cnt[0] += 1
+        return "%s%d_%s" % (tag, cnt[0], grp) if groups else "%s%d" % (tag, cnt[0])
+    for ci in range(n_chr):
+        c = "chr%d" % (ci + 1)
+        w["genes"].append(locus_gene("GA%d" % ci, c, "+", 1000, {"TA%d_1" % ci: [0, 1, 2, 3, 4], "TA%d_2" % ci: [0, 2, 3, 4], "TA%d_3" % ci: [0, 1, 2, 4]}))
+        w["genes"].append(locus_gene("GB%d" % ci, c, "-", 5000, {"TB%d_1" % ci: [0, 1, 2], "TB%d_2" % ci: [0, 2]}))
+        grp = ["gA", "gB", "gC"]
+        for k in range(3):
+            reads.append(read_of(name("fsm1", grp[k % 3]), c, exons(1000, [0, 1, 2, 3, 4])))
+            reads.append(read_of(name("fsm2", grp[(k + 1) % 3]), c, exons(1000, [0, 2, 3, 4])))
+            reads.append(read_of(name("fsmb", grp[(k + ci) % 3]), c, exons(5000, [0, 1, 2]), strand="-"))
+        reads.append(read_of(name("ism", "gA"), c, [[2251, 2400], [2801, 2950]], polya=False))
+        for k in range(4):
+            reads.append(read_of(name("nic", grp[k % 2]), c, exons(1000, [0, 1, 3, 4])))          # novel combination of known introns? (skips slot 2)
+            reads.append(read_of(name("nnic", grp[(k + 1) % 3]), c, exons(1000, [0, 1, 2, 3, 4, 5])))  # novel exon (slot 5)
+            reads.append(read_of(name("ng", grp[k % 3]), c, exons(8000, [0, 1, 2])))              # novel gene
+        reads.append(read_of(name("mono", "gB"), c, [[1650, 1780]], polya=False))
+        add_sites_for_blocks(w, c, exons(1000, [0, 1, 3, 4]), "+")
+        add_sites_for_blocks(w, c, exons(1000, [0, 1, 2, 3, 4, 5]), "+")
+        add_sites_for_blocks(w, c, exons(8000, [0, 1, 2]), "+")
+    if multimappers:
+        for ci in range(n_chr - 1):
+            c1, c2 = "chr%d" % (ci + 1), "chr%d" % (ci + 2)
+            nm = name("mm", "gC")
+            reads.append(read_of(nm, c1, exons(1000, [0, 1, 2, 3, 4])))
+            reads.append(read_of(nm, c2, exons(1000, [0, 1, 2, 3, 4]), secondary=True))
+            nm = name("mmi", "gA")
+            reads.append(read_of(nm, c2, exons(1000, [0, 2, 3, 4])))
+            reads.append(read_of(nm, c1, exons(8000, [0, 1, 2]), secondary=True))
+    reads.append({"name": "unm_1", "unmapped": True})
+    syn.plant_for_transcripts(w)
+    dedup_sites(w)
+    w["reads"] = reads
+    return w
